@@ -189,9 +189,9 @@ def check_c17(tier):
                        "tlc -workers 1 Trace_StepMatch.tla",
         "traces_validated_against_impl": len(vs), "lookups": sum(len(r["finds"]) for r in recs),
         "evaluations": len(vs), "distinct_nontrivial": nontrivial,
-        "rule": f"every registration order of every set of <= {maxdefs} definitions out of a pool of 9 "
-                "(3 keywords, 5 regexes incl. optional / nested / named / multi-byte groups, same regex at two "
-                "locations); each order is looked up with 3 keywords x 7 texts; non-trivial if at least two "
+        "rule": f"every registration order of every set of <= {maxdefs} definitions out of a pool of 11 "
+                "(3 keywords, 6 regexes incl. optional / nested / named / multi-byte groups and one that is not "
+                "anchored, same regex at two locations); each order is looked up with 3 keywords x 9 texts; non-trivial if at least two "
                 "definitions are registered",
         "samples": [{"registered_in_order": sample["regs"],
                      "finds": [f for f in sample["finds"] if f["res"] != "none"][:4]}],
